@@ -171,6 +171,19 @@ CLAIMED = {
   note=COMMON_NOTE + "set-style formatters (juniper, ribbon, nokia, routeros) are oracle-only on the formatter side; deploy rule rows "
        "outside the grammar are matched by CPython re (shipped as data); %apply_logic functions are the regenerated table.",
   design="§5 C09", technique="Lean 4 proof (formatter stream lemmas, table theorem by decide +kernel over a regenerated table) + translation + differential correspondence"),
+ "C18": dict(
+  text="Mostly TRANSLATION: harness/translate_c18.py regenerates lean/AnnetModel/Gen/DevDb.lean from /repo on every run (devdb via the real "
+       "_prepare_db, vendors' match() lists in registration order, every hw.<path> referenced by templates and code, logic names used vs "
+       "importable, templates reading hw.soft). Lean theorems: for every model string (= every truth assignment of the regex nodes) the "
+       "true sequences are prefix-closed, parse never raises, no referenced hw.<path> raises AttributeError, Registry.match never raises, "
+       "returns the most specific vendor and is independent of registration order when the best dot count has one owner - which holds on "
+       "the chain of each of the 168 sequences (decide +kernel over the regenerated tables); every logic name resolves; the provider's "
+       "caches make a used provider answer like a fresh one when templates ignore hw.soft; _escape_mako protects column-0 %. General "
+       "statements false without the table facts: kernel-checked witnesses. Tie/oracle: exhaustive execution over synthesised model "
+       "strings for all sequences x software shapes, registry permutations, two fresh providers / fresh interpreters.",
+  note=COMMON_NOTE + "CPython re search outcomes, Mako rendering, the rule compilers and Python import are executed on the finite space, not "
+       "modelled; the translator is in the trusted base.",
+  design="§5 C18", technique="translation of devdb/vendor/template tables into Lean + decide +kernel table theorems + general proofs + exhaustive execution"),
 }
 REASONS = {}
 PENDING = {"C04": "merged, being re-pointed to the repaired code (fixes c926070, 13137d1)", "C13": "temporarily withdrawn: model being re-pointed to the repaired code (fix 33969c0); see DESIGN.md 11"}
